@@ -204,7 +204,10 @@ def check_case(case):
             key = lambda i: (int(screen.sample_ids[i]),) + tuple(int(x) for x in screen.treatment_ids[i])
             ks = [key(i) for i in got]
             require(len(ks) == len(set(ks)) and set(ks) == set(key(i) for i in range(n)), "unique_of_screen.exact", "unique filter on the whole screen does not keep exactly one row per condition")
-            continue
+            # the returned view is kept like any other view: later filters (on this screen, on views, on the second screen) must not change it
+            idx = got
+            depth = 1
+            filter_dataset_to_unique_treatments(S.build_screen(sc))
         elif kind == "to_screen":
             pv, pidx, pd, _ = pick(op["a"])
             pl_, mk_ = np.asarray(screen.plate_ids)[np.array(pidx, dtype=int)], mask[np.array(pidx, dtype=int)]
